@@ -153,7 +153,7 @@ func failureForm(op uint16, resp []byte) bool {
 func TestC01(t *testing.T) {
 	r := NewReporter(t)
 	defer r.Done()
-	r.Rule("path strings = optional leading '/' x all sequences of <= N segments from {'', '.', '..', sub, <root>-other, <root>, out, ***DVD***, ***PS3***, PS3ISO, g.iso, secret.txt, CLOSEFILE} + specials (NUL, 65534-byte path, 300-deep ../, backslashes, '..' decorated with control/space/invalid bytes, paths padded with './', 'x/../', '//' to 255..65535 bytes) x 8 path-carrying opcodes x writing on/off x root spelling (incl. root directories named with trailing dots / spaces next to a sibling without them) x preceding request; short escaping paths also delivered in pieces (1, 7, 17 bytes, cut in the middle and one byte before the end); oracles: (O1) every leaf filesystem operation stays under the root, (O2) sentinel tree outside the root unchanged, (O3) byte-identical responses against a twin world whose outside is empty, (O4) response = model answer for the clamped path or the failure form; the process runs in a working directory full of bait and an encrypted image whose only key files lie outside the root must be served as stored; distinct by (path, mode, spelling, preceding request)")
+	r.Rule("path strings = optional leading '/' x all sequences of <= N segments from {'', '.', '..', sub, <root>-other, <root>, out, ***DVD***, ***PS3***, PS3ISO, g.iso, secret.txt, CLOSEFILE} + specials (NUL, 65534-byte path, 300-deep ../, backslashes, '..' decorated with control/space/invalid bytes, paths padded with './', 'x/../', '//' to 255..65535 bytes) x 8 path-carrying opcodes x writing on/off x root spelling (incl. root directories named with trailing dots / spaces next to a sibling without them, and roots kept below directories named PS3ISO / REDKEY / like the virtual-image prefixes with key files all around) x preceding request; short escaping paths also delivered in pieces (1, 7, 17 bytes, cut in the middle and one byte before the end); oracles: (O1) every leaf filesystem operation stays under the root, (O2) sentinel tree outside the root unchanged, (O3) byte-identical responses against a twin world whose outside is empty, (O4) response = model answer for the clamped path or the failure form; the process runs in a working directory full of bait and an encrypted image whose only key files lie outside the root must be served as stored; distinct by (path, mode, spelling, preceding request)")
 	A := buildC01World(t, true)
 	B := buildC01World(t, false)
 	defer A.w.Cleanup()
@@ -493,6 +493,63 @@ func TestC01(t *testing.T) {
 			}
 		}
 		os.RemoveAll(odd)
+		// roots located below directories whose names mean something to the server's own path logic (PS3ISO, REDKEY,
+		// the virtual-image prefixes): that logic applies to what the client asked for, never to where the operator
+		// keeps the root. The only key files for the encrypted image lie outside the root, where such a rule would look.
+		locs := filepath.Join(A.w.Dir, "locations")
+		for li, above := range []string{"PS3ISO", "ps3iso", "REDKEY", "***DVD***", "***PS3***", "PS3ISO/PS3ISO", "x/PS3ISO/y"} {
+			if !r.Mine(9100 + li) {
+				continue
+			}
+			os.RemoveAll(locs)
+			root := filepath.Join(locs, filepath.FromSlash(above), "library")
+			disk, _ := mkRedumpImage(6, []uint32{0, 2, 4, 5}, c10Keys[2], 5)
+			writeFileAbs(filepath.Join(root, "game.iso"), disk, baseTime)
+			writeFileAbs(filepath.Join(root, "sub", "game.iso"), disk, baseTime)
+			writeFileAbs(filepath.Join(root, "inside.txt"), []byte("inside the root"), baseTime)
+			keyText := []byte(hex.EncodeToString(c10Keys[2]))
+			filepath.Walk(locs, func(p string, fi os.FileInfo, err error) error { // a key file of every plausible name in every directory at or above the root's parent
+				if err == nil && fi.IsDir() && !strings.HasPrefix(p, root) {
+					for _, rel := range []string{"game.dkey", "library.dkey", "REDKEY/game.dkey", "REDKEY/library/game.dkey", "REDKEY/library/sub/game.dkey", "REDKEY/sub/game.dkey", "library/game.dkey"} {
+						if kp := filepath.Join(p, rel); !strings.HasPrefix(kp, root+"/") {
+							writeFileAbs(kp, keyText, baseTime)
+						}
+					}
+				}
+				return nil
+			})
+			for _, allow := range []bool{false, true} {
+				br, err := startReplayer(root, locs, binLogDir("C01"), allow)
+				key := sprintf("bin|root below %q|%v", above, allow)
+				r.State(key)
+				r.Nontrivial(key)
+				if err != nil {
+					r.Violation("C01:root-location:start-failed", sprintf("root %q: the server does not start: %v", root, err), map[string]any{"above": above})
+					continue
+				}
+				for _, reqs := range [][]Req{
+					{mkReq(opOpenFile, "/game.iso"), rdcReq(0, 6*2048), rdReq(2048*3+5, 100), mkReq(opStatFile, "/inside.txt")},
+					{mkReq(opOpenFile, "/sub/game.iso"), rdcReq(2048*2, 2048*2), mkReq(opOpenDir, "/"), noargReq(opReadDir)},
+					{mkReq(opStatFile, "/../game.dkey"), mkReq(opOpenFile, "/../REDKEY/library/game.dkey"), mkReq(opOpenDir, "/.."), noargReq(opReadDir)},
+				} {
+					mI := newModel(root, allow)
+					resI := runSession(t, SrvOpts{Root: root, AllowWrite: allow}, mI, reqs, Delivery{})
+					why, sig := br.replay(newModel(root, allow), reqs, lensOf(resI.Raw), resI.Closed)
+					r.Trace(1)
+					r.Transition(int64(len(reqs)))
+					if resI.Why != "" {
+						why, sig = "in-process: "+resI.Why, resI.WhySig
+					}
+					if why != "" {
+						r.Violation("C01:root-location:"+sig, sprintf("root kept below a directory named %q (allow-write=%v), encrypted image whose only key files lie outside the root: %s", above, allow, why), map[string]any{"above": above, "allow_write": allow, "requests": reqs})
+					} else {
+						r.Outcome("root-location-ok")
+					}
+				}
+				br.Stop()
+			}
+		}
+		os.RemoveAll(locs)
 		os.RemoveAll(binLogDir("C01"))
 	}
 	r.Assume("operator-placed symlinks are excluded by the property; Windows path forms are not explored; the twin world differs only in what exists outside the root")
